@@ -246,7 +246,94 @@ def _const_test(e):
     return None
 
 
+class _SimplifyBool(ast.NodeTransformer):
+    """`True and x` -> x ; `False or x` -> x ; `not False and x` -> x  (constants left behind by parameter substitution)"""
+    def visit_BoolOp(self, node):
+        self.generic_visit(node)
+        keep = []
+        for v in node.values:
+            c = _const_test(v)
+            if isinstance(node.op, ast.And):
+                if c is True:
+                    continue
+                if c is False:
+                    return ast.copy_location(ast.Constant(value=False), node)
+            else:
+                if c is False:
+                    continue
+                if c is True and not keep:
+                    return ast.copy_location(ast.Constant(value=True), node)
+            keep.append(v)
+        if not keep:
+            return ast.copy_location(ast.Constant(value=isinstance(node.op, ast.And)), node)
+        if len(keep) == 1:
+            return keep[0]
+        node.values = keep
+        return node
+
+    def visit_FunctionDef(self, node):
+        return node
+
+    visit_AsyncFunctionDef = visit_FunctionDef
+    visit_ClassDef = visit_FunctionDef
+    visit_Lambda = visit_FunctionDef
+
+
+def _flag_tails(stmts, flag):
+    """Terminal statement lists of `stmts` (descending through trailing if/else) that end with `flag = <constant>`; None if some
+    path does not end that way (and does not leave by return/raise)."""
+    if not stmts:
+        return None
+    last = stmts[-1]
+    if isinstance(last, ast.Assign) and len(last.targets) == 1 and isinstance(last.targets[0], ast.Name) and last.targets[0].id == flag and isinstance(last.value, ast.Constant):
+        return [(stmts, bool(last.value.value))]
+    if isinstance(last, (ast.Return, ast.Raise)):
+        return []
+    if isinstance(last, ast.If) and last.orelse:
+        a, b = _flag_tails(last.body, flag), _flag_tails(last.orelse, flag)
+        if a is None or b is None:
+            return None
+        return a + b
+    return None
+
+
+def _thread_flags(stmts):
+    """if C: A; f = False  else: B; f = True     followed by     if not f: X  [else: Y]
+    is the same as          if C: A; X  else: B; Y       when f is used nowhere else: the flag only carried the branch taken."""
+    changed = True
+    while changed:
+        changed = False
+        for i in range(len(stmts) - 1):
+            a, b = stmts[i], stmts[i + 1]
+            if not (isinstance(a, ast.If) and a.orelse and isinstance(b, ast.If)):
+                continue
+            t = b.test
+            neg = False
+            if isinstance(t, ast.UnaryOp) and isinstance(t.op, ast.Not):
+                t, neg = t.operand, True
+            if not isinstance(t, ast.Name):
+                continue
+            flag = t.id
+            tails = _flag_tails([a], flag)
+            if not tails:
+                continue
+            uses = sum(1 for s0 in stmts for x in ast.walk(s0) if isinstance(x, ast.Name) and x.id == flag)
+            if uses != len(tails) + 1:
+                continue
+            for lst, val in tails:
+                taken = b.body if (val != neg) else b.orelse
+                lst.pop()
+                lst.extend(clone(taken))
+                if not lst:
+                    lst.append(_pass(a))
+            del stmts[i + 1]
+            changed = True
+            break
+    return stmts
+
+
 def _prune_constant_branches(stmts):
+    stmts = [_SimplifyBool().visit(st) for st in stmts]
     out = []
     for st in stmts:
         for attr in ("body", "orelse", "finalbody"):
@@ -475,6 +562,9 @@ class Inliner:
         out = []
         for st in stmts:
             out.extend(self.expand_stmt(st, module, cls, depth, stack))
+        if any(isinstance(x, ast.Name) and ("__i" in x.id) for st in out for x in ast.walk(st)):
+            # only code that contains inlined material is reshaped
+            out = _thread_flags(out)
         return out
 
     def expand_stmt(self, st, module, cls, depth, stack):
